@@ -128,7 +128,7 @@ def run(tier, seed):
         for cls in ('DynGraph', 'DynDiGraph'):
             conf = U.conf_make(cls, False, fl, base.window_for(tier, fl, p['w']))
             total, summary = (base.explore_universes(spec, conf, tier, which=base.REDUCED['which'], params=base.REDUCED['params'])
-                              if reduced else base.explore_universes(spec, conf, tier))
+                              if reduced else base.explore_universes(spec, conf, tier, params={'two_depth': 4} if tier == 'quick' else {'two_depth': 5}))
             rep.cov['per_universe'] += summary
             rep.cov['states'] += total.states
             rep.cov['transitions'] += total.transitions
